@@ -1,4 +1,10 @@
+def _corpus(tier, seed):
+    import importlib.util, os
+    sp = importlib.util.spec_from_file_location('c17', os.path.join(os.path.dirname(__file__), 'c17.py')); m = importlib.util.module_from_spec(sp); sp.loader.exec_module(m)
+    return m.compile_corpus(tier, seed, only="c05_")
+
 SPEC = {
+    "custom": _corpus,
     "id": "C05",
     "level": "proof",
     "props": ["props/C05.vo"],
@@ -11,7 +17,7 @@ SPEC = {
     "rule": ("rustc's verdict T: Send / T: Sync (autoref-specialisation probes compiled into the harness against the working tree) for 16 types (HipByt, HipStr, HipOsStr, HipPath, their four "
              "RefMut guards, both SliceError types, FromUtf8Error, the IterWrapper returned by split, and Option/Vec/&/tuple of them) x {Arc, Rc, Unique} x {Send, Sync} x {a local borrow lifetime, "
              "'static} = 192 verdicts, each compared with the model's derivation `holds` over the environment regenerated from the struct definitions and unsafe impl headers; the finite domain is "
-             "enumerated completely. Also size_of::<Option<T>>() == size_of::<T>() == 24 for the 12 type x backend pairs. distinct_nontrivial = verdicts compared."),
+             "enumerated completely. Also size_of::<Option<T>>() == size_of::<T>() == 24 for the 12 type x backend pairs. distinct_nontrivial = verdicts compared. Plus client programs compiled by rustc (harness/api_corpus/c05_*): values borrowing LOCAL data moved to / shared with scoped threads must compile for Arc and Unique (the probes cannot see an impl that holds for 'static only) and be rejected (E0277) for Rc, iterators included."),
     "assumptions": [
         "the auto-trait rules of `holds` (fields, &T, &mut T, Cell, raw pointers, explicit impls with bounds) are a model of rustc's, validated by the 192 probes; negative impls and dyn are not modelled (the crate has none)",
         "moving or sharing a value across threads in safe Rust requires Send / Sync (std's spawn/scope/channels/Arc/Mutex bounds): the 'consequently' clause rests on that",
